@@ -305,6 +305,11 @@ func (c connectUnaryServerProtocol) extractProtocolResponseHeaders(statusCode in
 				end.err = connect.NewError(httpStatusCodeToRPC(statusCode), fmt.Errorf("unexpected HTTP error: %d %s", statusCode, http.StatusText(statusCode)))
 				return
 			}
+			if wireErr.Code == 0 {
+				// A failure whose body names no code is still a failure:
+				// infer the code from the HTTP status.
+				wireErr.Code = httpStatusCodeToRPC(statusCode)
+			}
 			end.err = wireErr.toConnectError()
 		}
 	}
@@ -650,7 +655,12 @@ type connectWireError struct {
 }
 
 func (e *connectWireError) toConnectError() *connect.Error {
-	cerr := connect.NewError(e.Code, errors.New(e.Message))
+	code := e.Code
+	if code == 0 {
+		// An error without a (valid) code is an unknown error, never "OK".
+		code = connect.CodeUnknown
+	}
+	cerr := connect.NewError(code, errors.New(e.Message))
 	for _, detail := range e.Details {
 		detailData, err := base64.RawStdEncoding.DecodeString(detail.Value)
 		if err != nil {
